@@ -538,9 +538,11 @@ def sibling_offsets_running(ctx: Ctx) -> None:
             acc = None
             from sfa.rules.blockrules import _enclosing_ifs
             branch = [(id(i), pol) for i, pol in _enclosing_ifs(f.node, cuts[0])][:1]
+            from sfa.model import doc_order
+            order = doc_order(f.node)
             for o in walk_local(f.node):
                 # a recomputation on the same branch of the function as the cut, after it
-                if isinstance(o, (ast.For, ast.While)) and o.lineno > cuts[0].lineno and [(id(i), pol) for i, pol in _enclosing_ifs(f.node, o)][:1] == branch:
+                if isinstance(o, (ast.For, ast.While)) and order[id(o)] > order[id(cuts[0])] and [(id(i), pol) for i, pol in _enclosing_ifs(f.node, o)][:1] == branch:
                     acc = acc or running(o)
             if resets and acc is not None:
                 ctx.ok(R, f, cuts[0], f'after cutting leaves the cached lengths are reset and offsets recomputed from the running total `{acc}`', key=key)
